@@ -64,6 +64,12 @@ func randGradStops(r *rand.Rand, n int) []stopJ {
 		}
 		out[i] = stopJ{C: [4]int{r.Intn(a + 1), r.Intn(a + 1), r.Intn(a + 1), a}, O: f32j(float32(k) / 64)}
 	}
+	if r.Intn(8) == 0 { // every stop carries the same colour
+		for i := range out {
+			out[i].C = out[0].C
+		}
+		return out
+	}
 	if r.Intn(3) == 0 { // power-of-two spacing: exact interpolation
 		out = out[:0]
 		for _, k := range []int{0, 16, 32, 64}[:2+r.Intn(3)] {
@@ -184,38 +190,56 @@ func driveC15(args []string) error {
 		}
 		z.SetCSel(uint8((base + 63) % 64))
 		z.SetCReg(0, false, ivg.RGBAColor(ivg.EncodeGradient(uint8(base), uint8(base), uint8(gcase.shape), uint8(gcase.spread), uint8(len(gcase.stops)))))
-		z.StartPath(0, cfg.vb[0], cfg.vb[1])
-		z.AbsLineTo(cfg.vb[2], cfg.vb[1])
-		z.AbsLineTo(cfg.vb[2], cfg.vb[3])
-		z.AbsLineTo(cfg.vb[0], cfg.vb[3])
-		z.ClosePathEndPath()
-		for _, c := range rr.Calls {
-			if c.K != "Draw" {
-				continue
+		full := func() {
+			z.StartPath(0, cfg.vb[0], cfg.vb[1])
+			z.AbsLineTo(cfg.vb[2], cfg.vb[1])
+			z.AbsLineTo(cfg.vb[2], cfg.vb[3])
+			z.AbsLineTo(cfg.vb[0], cfg.vb[3])
+			z.ClosePathEndPath()
+		}
+		// the image handed to Draw is the Renderer's own gradient object, rebuilt by the next StartPath: probe it
+		// right after the Draw, before anything else happens to the Renderer
+		probe := func(rc image.Rectangle, from int) {
+			for _, c := range rr.Calls[from:] {
+				if c.K != "Draw" {
+					continue
+				}
+				gc, ok := c.img.(raster.GradientConfig)
+				if !ok {
+					continue
+				}
+				stats["rendered"]++
+				ce := cfgEv{Ev: "cfg", Vb: fs(cfg.vb[0], cfg.vb[1], cfg.vb[2], cfg.vb[3]), Rect: [4]int{rc.Min.X, rc.Min.Y, rc.Max.X, rc.Max.Y},
+					Sp: [2]int{c.I[4], c.I[5]}}
+				for _, v := range gcase.m {
+					ce.NReg = append(ce.NReg, f32j(v))
+				}
+				ta, tb, tc, td, te, tf := gc.Transform()
+				for _, v := range []float64{ta, tb, tc, td, te, tf} {
+					ce.M = append(ce.M, d64j(v))
+				}
+				sh.Next().Emit(ce)
+				stats["cfg"]++
+				var m32 [6]float32
+				for k, v := range []float64{ta, tb, tc, td, te, tf} {
+					m32[k] = float32(v)
+				}
+				for _, p := range probePixels(rng, m32) {
+					emitPix("Renderer.Draw", c.img, gc, gcase.stops, p[0], p[1])
+				}
 			}
-			gc, ok := c.img.(raster.GradientConfig)
-			if !ok {
-				continue
-			}
-			stats["rendered"]++
-			ce := cfgEv{Ev: "cfg", Vb: fs(cfg.vb[0], cfg.vb[1], cfg.vb[2], cfg.vb[3]), Rect: [4]int{cfg.rect.Min.X, cfg.rect.Min.Y, cfg.rect.Max.X, cfg.rect.Max.Y},
-				Sp: [2]int{c.I[4], c.I[5]}}
-			for _, v := range gcase.m {
-				ce.NReg = append(ce.NReg, f32j(v))
-			}
-			ta, tb, tc, td, te, tf := gc.Transform()
-			for _, v := range []float64{ta, tb, tc, td, te, tf} {
-				ce.M = append(ce.M, d64j(v))
-			}
-			sh.Next().Emit(ce)
-			stats["cfg"]++
-			var m32 [6]float32
-			for k, v := range []float64{ta, tb, tc, td, te, tf} {
-				m32[k] = float32(v)
-			}
-			for _, p := range probePixels(rng, m32) {
-				emitPix("Renderer.Draw", c.img, gc, gcase.stops, p[0], p[1])
-			}
+		}
+		full()
+		probe(cfg.rect, 0)
+		if i%2 == 0 {
+			// the same Renderer gets another target (twice the size, other origin) and paints with the same
+			// gradient again, without a Reset or a register write in between
+			nr := image.Rect(cfg.rect.Min.X+3, cfg.rect.Min.Y+1, cfg.rect.Min.X+3+2*cfg.rect.Dx(), cfg.rect.Min.Y+1+2*cfg.rect.Dy())
+			z.SetRasterizer(rr, nr)
+			n0 := len(rr.Calls)
+			full()
+			probe(nr, n0)
+			stats["retargeted"]++
 		}
 	}
 	nEv, err := sh.Close()
